@@ -39,7 +39,19 @@ fn limb(rng: &mut StdRng, pool: &Pool, sparse: bool) -> Vec<u8> {
     }
 }
 fn elem_bytes(rng: &mut StdRng, pool: &Pool, nlimbs: usize) -> Vec<u8> {
-    let class = rng.gen_range(0..8);
+    let class = rng.gen_range(0..11);
+    if class >= 8 {
+        // component-sparse: every F_q^2 component (pair of limbs) is zero with probability 1/2, the others are general
+        let mut v = Vec::with_capacity(32 * nlimbs);
+        for _ in 0..(nlimbs / 2).max(1) {
+            let zero = rng.gen::<bool>();
+            for _ in 0..2.min(nlimbs) {
+                v.extend_from_slice(&if zero { vec![0u8; 32] } else { limb(rng, pool, false) });
+            }
+        }
+        v.truncate(32 * nlimbs);
+        return v;
+    }
     let mut v = Vec::with_capacity(32 * nlimbs);
     for i in 0..nlimbs {
         let l = match class {
